@@ -280,12 +280,13 @@ def tigerxml(tree, stream, **params):
     stream.write(u"  <terminals>\n")
     for terminal in trees.terminals(tree):
         stream.write(u"    <t id=\"%d\" " % terminal.data['num'])
+        quoted = {}
         for field in ['word', 'lemma', 'label', 'morph']:
-            terminal.data[field] = quoteattr(terminal.data[field])
-        stream.write(u"%s=%s " % ('word', terminal.data['word']))
-        stream.write(u"%s=%s " % ('lemma', terminal.data['lemma']))
-        stream.write(u"%s=%s " % ('pos', terminal.data['label']))
-        stream.write(u"%s=%s " % ('morph', terminal.data['morph']))
+            quoted[field] = quoteattr(terminal.data[field])
+        stream.write(u"%s=%s " % ('word', quoted['word']))
+        stream.write(u"%s=%s " % ('lemma', quoted['lemma']))
+        stream.write(u"%s=%s " % ('pos', quoted['label']))
+        stream.write(u"%s=%s " % ('morph', quoted['morph']))
         stream.write(u"/>\n")
     stream.write(u"  </terminals>\n")
     stream.write(u"  <nonterminals>\n")
